@@ -121,10 +121,11 @@ class Codec(object):
             body = [self.encode_slot(t, v) for (_, t), v in zip(m["args"], args)]
         else:
             body = {}
+            wire = m.get("wire") or {}
             for (an, t), v in zip(m["args"], args):
                 x = self.encode_slot(t, v)
                 if x is not None or (t.get("occ") or {}).get("min", 0) >= 1:
-                    body[self.key(an)] = x
+                    body[self.key(wire.get(an, an))] = x
         return {self.key(m["name"]): body}
 
     # ------------------------------------------------------------- decode
